@@ -6,7 +6,7 @@ import ast
 from ..core import Run, AnalysisError, dotted, norm
 from ..dim import World
 from ..flow import CFG, Fn, node_calls, conditions_for, stmt_of
-from .collectors import CE, run_collector_rules, homomorphism, returned_pairs, _fn, ops_in_slice, sum_like_discipline
+from .collectors import CE, run_collector_rules, homomorphism, returned_pairs, _fn, ops_in_slice, sum_like_discipline, same_exponent
 from .c05 import sum_like_rules, _has_raise_under, _calls
 
 EXPLANATION = (
@@ -123,8 +123,12 @@ def check(run: Run) -> None:
         sf = {d.ast.value for d in cfg.slice(r, [fe]).def_nodes if isinstance(d.ast, ast.Assign)}
         pf = [x for e in cfg.slice(r, [fe]).exprs for x in ast.walk(e) if isinstance(x, ast.BinOp) and isinstance(x.op, ast.Pow)]
         pd = [x for e in cfg.slice(r, [de]).exprs for x in ast.walk(e) if isinstance(x, ast.BinOp) and isinstance(x.op, ast.Pow)]
-        if len(pf) != 1 or len(pd) != 1 or norm(pf[0].right) != norm(pd[0].right):
+        if len(pf) != 1 or len(pd) != 1 or not same_exponent(cfg, r, pf[0].right, pd[0].right):
             run.violate("S6", f"{mod.name}:_collect_pow:exponent", mod, r.ast, "value and dimension are not raised to the same exponent value")
+        elif not any(c_.split(".")[-1] in ("nsimplify", "Rational") for c_ in cfg.slice(r, [pd[0].right]).calls):
+            run.violate("S6", f"{mod.name}:_collect_pow:float-exponent", mod, r.ast,
+                        "the dimension is raised to the exponent as written: a float exponent (area**0.5) gives Dimension(length**1.0), which SymPy (Float(1.0) != 1) does not "
+                        "consider equivalent to length; the dimension's exponent must be made exact (nsimplify / Rational)")
     dv = h["Derivative"]
     for cfg, r, fe, de in returned_pairs(dv):
         run.ob("S6", "Derivative:dimension")
